@@ -39,11 +39,16 @@ TraceStep ==
            id  == r.k
            st1 == CallOp(St, id, r.mon = 1, r.kind)
            \* what the specification determines about the recorded observation
+           \* the property: the outcome is what it is without monitors, and exactly the monitors the model names received events
            ok  == /\ r.outcome = (IF r.kind = "ok" THEN "return" ELSE "panic")
                   /\ {g[1] : g \in {r.got[k] : k \in DOMAIN r.got}} = Receivers(St, st1)          \* Scoped
-                  /\ r.mset = (IF st1.m # 0 THEN 1 ELSE 0)                                        \* CleanWhenIdle
-                  /\ (r.p # 0 \/ r.aset # 0) = (st1.pa # 0)
+           \* the mechanism (layer 3, a DRIFT diagnostic): the package globals are what the model's m / pa say (CleanWhenIdle);
+           \* r.p < 0: the shim could not see them in this tree
+           glob == \/ r.p = -2
+                   \/ /\ r.mset = (IF st1.m # 0 THEN 1 ELSE 0)
+                      /\ (r.p = -1 \/ (r.p # 0 \/ r.aset # 0) = (st1.pa # 0))
        IN /\ (IF ok THEN TRUE ELSE PrintT("VIOL " \o ToJson(<<hist, {<<"C18", "MonitorLifeCycle">>}, r.k>>)))
+          /\ (IF glob THEN TRUE ELSE PrintT("VIOL " \o ToJson(<<hist, {<<"C18", "L3_MonitorGlobalsAsModelled">>}, r.k>>)))
           /\ m' = st1.m /\ pa' = st1.pa /\ delivered' = st1.delivered /\ Frame /\ hist' = hist
           /\ cnt' = [cnt EXCEPT !.steps = @ + 1, !.viol = @ + (IF ok THEN 0 ELSE 1), !.withmon = @ + r.mon]
     /\ Final
